@@ -363,6 +363,40 @@ def emptinessRelease (poolOf : String → String) (nominated : String → Bool) 
     (cmd current : List String) : List String :=
   (emptinessValidate poolOf nominated budgets cmd current).getD []
 
+/-! ### The launch cap: `Results.TruncateInstanceTypes` (scheduler.go) over `InstanceTypes.Truncate` (types.go)
+
+`SimulateScheduling` cuts every new NodeClaim of the solver's result to the `MaxInstanceTypes` cheapest options before
+`computeConsolidation` / `validateCommand` read it.  A NodeClaim whose cut option list no longer meets the NodePool's
+minValues (Strict policy) is DROPPED from the result — and each of its pods is entered into the result's `PodErrors`,
+which is what keeps `AllNonPendingPodsScheduled` from reporting a simulation that silently lost pods. -/
+
+/-- a new NodeClaim of a scheduling result with the pods the solver put on it -/
+structure PClaim where
+  pods  : List String
+  claim : Claim
+deriving Repr
+
+/-- `InstanceTypes.Truncate(ctx, reqs, maxItems)`: the first `cap` options of the price-ordered list (`OrderByPrice` is
+    C19's); `none` = the minValues error, returned under the Strict policy only -/
+def truncateTypes (strict : Bool) (cap : Nat) (R : Reqs) (its : List IType) : Option (List IType) :=
+  let t := its.take cap
+  if hasMinValues R && strict && (satisfiesMinValues R t).2 then none else some t
+
+/-- `Results.TruncateInstanceTypes`: the NodeClaims that remain (cut to the cap) and the pods ADDED to `PodErrors` -/
+def truncateResults (strict : Bool) (cap : Nat) : List PClaim → List PClaim × List String
+  | [] => ([], [])
+  | c :: cs =>
+    let r := truncateResults strict cap cs
+    match truncateTypes strict cap c.claim.reqs c.claim.its with
+    | none => (r.1, c.pods ++ r.2)
+    | some t => ({ c with claim := { c.claim with its := t } } :: r.1, r.2)
+
+/-- `SimulateScheduling`'s result as `computeConsolidation` reads it, from the solver's result (`errs` = the solver's
+    own errors for non-pending pods): all scheduled ⇔ no error is left after the cut -/
+def simAfterCap (strict : Bool) (cap : Nat) (errs : List String) (claims : List PClaim) : Sim :=
+  let r := truncateResults strict cap claims
+  { allScheduled := (errs ++ r.2).isEmpty, claims := r.1.map (·.claim) }
+
 /-! ### The scheduler's reserved pin (`offeringsToReserve` at the last `Add`, `FinalizeScheduling`) -/
 
 /-- `offeringsToReserve` with the `ReservedCapacity` gate on and every reservation still having capacity:
